@@ -72,6 +72,7 @@ class ArcBasedRoutingProblem(RoutingProblem):
 
     def enumerate_variables_quicker(self):
         """ Basic operation that needs to be done to keep track of variable counts, indexing """
+        self.var_mapping = []
         num_vars = 0
         # Loop over (i,s,j,t)
         # and check if a variable is allowed (nonzero)
@@ -110,6 +111,7 @@ class ArcBasedRoutingProblem(RoutingProblem):
 
     def enumerate_variables_exhaustive(self):
         """ Basic operation that needs to be done to keep track of variable counts, indexing """
+        self.var_mapping = []
         num_vars = 0
         # Loop over (i,s,j,t)
         # and check if a variable is allowed (nonzero)
@@ -204,6 +206,7 @@ class ArcBasedRoutingProblem(RoutingProblem):
         SLOW but probably correct? Might add a bunch of vacuous constraints
         """
         self.enumerate_variables()
+        self.constraint_names = []
 
         aval = []
         arow = []
@@ -263,6 +266,7 @@ class ArcBasedRoutingProblem(RoutingProblem):
         FASTER
         """
         self.enumerate_variables()
+        self.constraint_names = []
 
         aval = []
         arow = []
